@@ -13,11 +13,13 @@ PROPS["C06"] = {
     ],
 }
 PROPS["C07"] = {
-    "bounds": "composed scenario on the real relay + Conn + keepSafe + Spool + DiskQueue (file-system model) + endpoint model: 0..1 lines before the first connect, 0..2 while connected, optional flush, outage by peer close, 0..2 lines during the outage, reconnect, 0..1 lines after; thorough: keepSafe's expiry ticker firing once while connected, and two consecutive outage / recovery cycles with 0..1 lines per phase; every line = tag + 1 symbolic byte; keepSafe: histories of 1..5 Add/expiry-tick events",
+    "bounds": "composed scenario on the real relay + Conn + keepSafe + Spool + DiskQueue (file-system model) + endpoint model, connection queue of 4 lines, and of 1 line with the endpoint stalling first and 3 lines following (queue full when the outage hits; thorough: queue of 1 without that restriction): 0..1 lines before the first connect, 0..2 while connected, optional flush, outage by peer close, 0..2 lines during the outage, reconnect, 0..1 lines after; thorough: keepSafe's expiry ticker firing once while connected, and two consecutive outage / recovery cycles with 0..1 lines per phase; every line = tag + 1 symbolic byte; keepSafe: histories of 1..5 Add/expiry-tick events",
     "outside": "the timing premise (failure detected while the lines are still within keepSafe's >=10 s window; the keepSafe expiry ticker does not fire in the composed scenario); more than two outages; all goroutine interleavings (run-to-block scheduling with forks over ready select cases only); kernel acknowledging bytes it later loses",
     "assumptions": ["TCP endpoint model and in-memory file-system model", "violations of the composed scenario are schedule-dependent and reported without native replay (structural class)"],
     "groups": [
         {"pkg": "destination", "hdir": "destination", "native_optional": True, "specs": [spec("C07/outage", "VerifC07Outage"), spec("C07/keepsafe", "VerifC07KeepSafe")]},
+        {"pkg": "destination", "hdir": "destination", "native_optional": True, "specs": [spec("C07/outage/stalled-endpoint-queue-of-1-full", "VerifC07Outage", {"connbuf": "1", "maxlines": "3", "stalled": "1"})]},
+        {"pkg": "destination", "hdir": "destination", "native_optional": True, "specs": [spec("C07/outage/queue-of-1/lines<=3", "VerifC07Outage", {"connbuf": "1", "maxlines": "3"}, tier="thorough")]},
         {"pkg": "destination", "hdir": "destination", "native_optional": True, "specs": [spec("C07/outage/keepsafe-rotation", "VerifC07Outage", {"rotate": "1"}, tier="thorough")]},
         {"pkg": "destination", "hdir": "destination", "native_optional": True, "specs": [spec("C07/outage/2-outages/lines<=1", "VerifC07Outage", {"outages": "2", "maxlines": "1"}, tier="thorough")]},
     ],
